@@ -25,4 +25,49 @@ Section User.
     destruct (accepted_values_are_the_written_values opts args _ i argv u bs Hi Hsane Hnd Hv Hrun) as [Hvals _].
     now rewrite Hvals.
   Qed.
+  (** the arguments: a string bound to an argument variable is one of the positional tokens of the reading *)
+  Lemma values_for_KA_in_poss k bs v : In v (values_for (KA k) bs) -> In v (b_poss bs).
+  Proof.
+    unfold values_for, b_poss. intros H. apply in_map_iff in H. destruct H as ([k' w] & E & H).
+    cbn [snd] in E. subst w. apply filter_In in H. destruct H as [H Hk]. cbn [fst] in Hk.
+    apply in_flat_map. exists (k', v). split; [exact H|]. destruct k' as [o|a]; cbn [fst snd key_eqb] in *.
+    - discriminate.
+    - now left.
+  Qed.
+
+  (** the flag of an argument is raised only by a positional token written on the line: some token of the
+      reading's positionals is bound to it; so a line without positional tokens leaves every argument's flag down,
+      whatever the environment and the defaults are *)
+  Theorem setbyuser_arg_needs_a_positional ds spec i argv opts' args' u :
+    do_init parse_float getenv ds spec = IOk i ->
+    sane (optinfo_of (i_opts i)) = true -> no_dd_graph (i_graph i) = true ->
+    view (optinfo_of (i_opts i)) argv = Some u ->
+    fsm_parse parse_float i argv = PAccept opts' args' ->
+    forall k c, nth_error args' k = Some c -> ct_user c = true -> exists v, In v (poss u).
+  Proof.
+    intros Hi Hsane Hnd Hv Hp k c Hk Hu.
+    destruct (setbyuser_iff parse_float getenv ds spec i argv opts' args' Hi Hp) as (bs & Hrun & _ & Ha).
+    apply (Ha k c Hk) in Hu.
+    unfold do_init in Hi. destruct (declare parse_float getenv ds [] []) as [[opts args]|m]; [|discriminate].
+    destruct (compile_total opts args (match spec with [] => default_spec opts args | _ => spec end)) as [_ Hc].
+    destruct (Hc i Hi) as (_ & _ & Eo & _). rewrite Eo in *.
+    destruct (accepted_values_are_the_written_values opts args _ i argv u bs Hi Hsane Hnd Hv Hrun) as [_ Hpos].
+    unfold positional_bindings in Hpos. rewrite <- Hpos.
+    destruct (values_for (KA k) bs) as [|v vs] eqn:E; [now elim Hu|].
+    exists v. apply (values_for_KA_in_poss k). rewrite E. now left.
+  Qed.
+
+  Corollary no_positional_no_arg_flag ds spec i argv opts' args' u :
+    do_init parse_float getenv ds spec = IOk i ->
+    sane (optinfo_of (i_opts i)) = true -> no_dd_graph (i_graph i) = true ->
+    view (optinfo_of (i_opts i)) argv = Some u -> poss u = [] ->
+    fsm_parse parse_float i argv = PAccept opts' args' ->
+    Forall (fun c => ct_user c = false) args'.
+  Proof.
+    intros Hi Hsane Hnd Hv Hn Hp. apply Forall_forall. intros c Hin.
+    destruct (In_nth_error _ _ Hin) as [k Hk].
+    destruct (ct_user c) eqn:E; [|reflexivity].
+    destruct (setbyuser_arg_needs_a_positional ds spec i argv opts' args' u Hi Hsane Hnd Hv Hp k c Hk E) as [v Hv'].
+    rewrite Hn in Hv'. destruct Hv'.
+  Qed.
 End User.
